@@ -20,6 +20,22 @@ statements) become `if c: … else: <rest>`.  A branch condition is read off the
 plays the role (tests with polarity) and put into negation normal form (`not` pushed through `and`/`or` and into
 comparisons, chained comparisons split), so `if not c: A else: B`, De Morgan rewrites and early `continue`
 give the same Lean term as the original.  If a role cannot be found unambiguously, `generate` raises.
+
+Further normalisations (each one only where it provably keeps the meaning; otherwise the code is left as it is
+and the role matching refuses it):
+  * extracted methods are inlined again: `self._h(…)` whose body is one `return <expr>` (expression level) or a
+    statement list ending in its only `return` (statement level, `_inline_procedures`; never the SITES);
+  * `match (c1, c2): case (True, _): … case (False, True): … case _: …` on boolean tests -> the if-tree;
+  * a local that merely NAMES a pure sub-expression is put back where it is used: before matching when it is used
+    once (`_inline_single_use`), at rendering time for any number of uses (`_expand`) unless the local holds the
+    result of an extracted definition (then it is a role: the model passes that result).  Both check with a
+    conservative dataflow (`_Flow.same_value`: no rebinding of a name the expression reads and, if it reads an
+    object, no write to ANY object in between) that the value cannot have changed;
+  * `while A and <excess dict>:` = `while A: if not <excess dict>: break`; `return X if c else None` = `if c: return X`
+    (`_return_paths`); a value returned through a local = returned directly; keyword = positional arguments of
+    `AvailabilityRatio`; the amount to distribute written directly into the share expression.
+An operand (parameter of a definition) may only be a name / attribute chain / subscript / `x.as_…()` / an aggregate
+over a generator; any other call inside an extracted expression (`abs(…)`, `round(…)`) is refused.
 """
 from __future__ import annotations
 
@@ -59,6 +75,23 @@ def _is_struct(n: ast.AST) -> bool:
     return False
 
 
+def _is_operand(n: ast.AST) -> bool:
+    """What may stand for a parameter of an extracted definition: a name, an attribute chain, a subscript, a unit
+    accessor without arguments (`x.as_watts()`), or an aggregate over a generator (`sum(… for …)`, `min(…)`, `max(…)`,
+    `len(x)`).  Any other call (`abs(x)`, `round(x)`, …) would hide arithmetic from the translation and is refused."""
+    if isinstance(n, (ast.Name, ast.Attribute, ast.Subscript)):
+        return True
+    if isinstance(n, ast.Call) and not n.keywords:
+        f = ast.unparse(n.func)
+        if f in ("sum", "min", "max") and len(n.args) == 1 and isinstance(n.args[0], (ast.GeneratorExp, ast.ListComp)):
+            return True
+        if f == "len" and len(n.args) == 1:
+            return True
+        if isinstance(n.func, ast.Attribute) and not n.args and n.func.attr.startswith("as_"):
+            return True
+    return False
+
+
 class _Leaves(ast.NodeTransformer):
     def __init__(self) -> None:
         self.names: dict[str, str] = {}
@@ -68,6 +101,8 @@ class _Leaves(ast.NodeTransformer):
 
     def visit(self, node: ast.AST) -> ast.AST:  # type: ignore[override]
         if isinstance(node, ast.expr) and not _is_struct(node):
+            if not _is_operand(node):
+                raise Bad(f"`{ast.unparse(node)[:80]}` is neither arithmetic the translator knows nor a plain operand")
             src = ast.unparse(node)
             if src not in self.names:
                 self.names[src] = f"a{len(self.names)}"
@@ -189,14 +224,217 @@ class _InlineHelpers(ast.NodeTransformer):
         return node
 
 
+# Methods that `generate` looks up itself: calls of these are never inlined into their callers.
+SITES = {"_distribute_consume_power", "_distribute_supply_power", "_inclusion_exclusion_bounds",
+         "_compute_battery_availability_ratio", "_distribute_power", "_greedy_distribute_remaining_power",
+         "_distribute_multi_inverter_pairs", "distribute_power", "distribute_power_equally", "_total_capacity",
+         "_check_request", "_get_bounds", "_get_battery_inverter_data", "_get_components_data", "_get_distribution"}
+
+
+class _Rename(ast.NodeTransformer):
+    def __init__(self, m: dict[str, str]):
+        self.m = m
+
+    def visit_Name(self, node: ast.Name) -> ast.AST:  # noqa: N802
+        if node.id in self.m:
+            return ast.copy_location(ast.Name(id=self.m[node.id], ctx=node.ctx), node)
+        return node
+
+
+def _names_bound(stmts: list[ast.stmt]) -> set[str]:
+    out: set[str] = set()
+    for s in stmts:
+        for n in ast.walk(s):
+            if isinstance(n, ast.Name) and isinstance(n.ctx, (ast.Store, ast.Del)):
+                out.add(n.id)
+    return out
+
+
+def _inline_procedures(fn: ast.FunctionDef, cls: ast.ClassDef | None) -> None:
+    """Undo "extract method": `t = self._h(a, …)` / `self._h(a, …)` / `return self._h(a, …)` where `_h` is a method of
+    the same class (not one of SITES) whose body is a statement list with a single `return` at its very end (or none).
+
+    The body is copied in place of the call.  A parameter the helper never rebinds is replaced by the argument (a name,
+    or a pure expression); a parameter it does rebind must be an in/out value — the argument is a plain name and the
+    helper's result is assigned back to that same name — and is then replaced by that name too.  Other locals of the
+    helper keep their names unless they clash with a name of the caller.  Anything else is left as a call."""
+    if cls is None:
+        return
+    methods = {m.name: m for m in cls.body if isinstance(m, ast.FunctionDef) and m.name not in SITES and m is not fn
+               and m.name != fn.name and not m.decorator_list and m.args.args and m.args.args[0].arg == "self"
+               and not (m.args.vararg or m.args.kwarg or m.args.kwonlyargs or m.args.posonlyargs)}
+
+    def eligible(m: ast.FunctionDef) -> tuple[list[ast.stmt], ast.expr | None] | None:
+        body = _no_doc(m.body)
+        rets = [n for s in body for n in ast.walk(s) if isinstance(n, ast.Return)]
+        if any(isinstance(n, (ast.Yield, ast.YieldFrom, ast.Await, ast.FunctionDef, ast.AsyncFunctionDef, ast.Lambda,
+                              ast.Global, ast.Nonlocal, ast.ClassDef)) for s in body for n in ast.walk(s)):
+            return None
+        if not rets:
+            return body, None
+        if len(rets) == 1 and body and body[-1] is rets[0]:
+            return body[:-1], rets[0].value
+        return None
+
+    def expand(call: ast.Call, targets: list[str] | None) -> tuple[list[ast.stmt], ast.expr | None] | None:
+        f = call.func
+        if not (isinstance(f, ast.Attribute) and isinstance(f.value, ast.Name) and f.value.id == "self" and f.attr in methods):
+            return None
+        m = methods[f.attr]
+        el = eligible(m)
+        if el is None:
+            return None
+        body, ret = el
+        if len(body) < 1:  # single `return <expr>`: expression-level inlining handles it
+            return None
+        params = [a.arg for a in m.args.args][1:]
+        if any(isinstance(a, ast.Starred) for a in call.args) or any(k.arg is None for k in call.keywords):
+            return None
+        bind: dict[str, ast.expr] = dict(zip(params, call.args))
+        for k in call.keywords:
+            if k.arg not in params or k.arg in bind:
+                return None
+            bind[k.arg] = k.value  # type: ignore[index]
+        if len(call.args) > len(params) or set(bind) != set(params):
+            return None
+        rebound = _names_bound(body)
+        ret_names = ([e.id if isinstance(e, ast.Name) else None for e in ret.elts] if isinstance(ret, ast.Tuple)
+                     else [ret.id if isinstance(ret, ast.Name) else None]) if ret is not None else []
+        subst: dict[str, ast.expr] = {}
+        rename: dict[str, str] = {}
+        for q in params:
+            a = bind[q]
+            if q not in rebound:
+                if not (isinstance(a, ast.Name) or _is_pure(a)):
+                    return None
+                if isinstance(a, ast.Name):
+                    rename[q] = a.id
+                else:
+                    subst[q] = a
+            else:  # in/out
+                if not (isinstance(a, ast.Name) and targets is not None and len(targets) == len(ret_names)
+                        and any(t == a.id and r == q for t, r in zip(targets, ret_names))):
+                    return None
+                rename[q] = a.id
+        caller_names = {n.id for n in ast.walk(fn) if isinstance(n, ast.Name)} | {a.arg for a in fn.args.args}
+        for v in sorted(rebound - set(params)):
+            rename[v] = v if v not in caller_names else f"{v}__{m.name.strip('_')}"
+        new_body = [_Subst(subst).visit(_Rename(rename).visit(copy.deepcopy(s))) for s in body]
+        new_ret = _Subst(subst).visit(_Rename(rename).visit(copy.deepcopy(ret))) if ret is not None else None
+        return new_body, new_ret
+
+    def rewrite(stmts: list[ast.stmt]) -> tuple[list[ast.stmt], bool]:
+        out: list[ast.stmt] = []
+        changed = False
+        for s in stmts:
+            for f in ("body", "orelse", "finalbody"):
+                sub = getattr(s, f, None)
+                if isinstance(sub, list) and sub and isinstance(sub[0], ast.stmt):
+                    new, ch = rewrite(sub)
+                    setattr(s, f, new)
+                    changed |= ch
+            call = tnames = None
+            tnode = None
+            if isinstance(s, (ast.Assign, ast.AnnAssign)) and isinstance(s.value, ast.Call):
+                tnode = s.targets[0] if isinstance(s, ast.Assign) and len(s.targets) == 1 else getattr(s, "target", None)
+                if isinstance(tnode, ast.Name):
+                    call, tnames = s.value, [tnode.id]
+                elif isinstance(tnode, ast.Tuple) and all(isinstance(e, ast.Name) for e in tnode.elts):
+                    call, tnames = s.value, [e.id for e in tnode.elts]  # type: ignore[attr-defined]
+            elif isinstance(s, ast.Expr) and isinstance(s.value, ast.Call):
+                call = s.value
+            elif isinstance(s, ast.Return) and isinstance(s.value, ast.Call):
+                call = s.value
+            ex = expand(call, tnames) if call is not None else None
+            if ex is None:
+                out.append(s)
+                continue
+            body, ret = ex
+            out.extend(body)
+            if isinstance(s, ast.Return):
+                out.append(ast.copy_location(ast.Return(value=ret), s))
+            elif tnames is not None:
+                if ret is None:
+                    out.append(s)  # `t = self._h()` of a procedure without result: leave (refused later)
+                    continue
+                if ast.unparse(ret) != ast.unparse(tnode):  # type: ignore[arg-type]
+                    if isinstance(ret, ast.Tuple) and isinstance(tnode, ast.Tuple) and len(ret.elts) == len(tnode.elts):
+                        for t, r in zip(tnode.elts, ret.elts):
+                            if ast.unparse(t) != ast.unparse(r):
+                                out.append(ast.copy_location(ast.Assign(targets=[t], value=r), s))
+                    else:
+                        out.append(ast.copy_location(ast.Assign(targets=[tnode], value=ret), s))  # type: ignore[list-item]
+            changed = True
+        return out, changed
+
+    for _ in range(4):
+        fn.body, ch = rewrite(fn.body)
+        if not ch:
+            break
+    ast.fix_missing_locations(fn)
+
+
+def _is_boolish(n: ast.AST) -> bool:
+    return (isinstance(n, (ast.Compare, ast.BoolOp)) or (isinstance(n, ast.UnaryOp) and isinstance(n.op, ast.Not))
+            or _is_call(n, "is_close_to_zero") or _is_call(n, "math.isclose"))
+
+
+def _match_to_if(s: ast.Match) -> list[ast.stmt]:
+    """`match (c1, c2): case (True, _): A  case (False, True): B  case _: C` -> the decision tree
+    `if c1: A else: if c2: B else: C` (subject components are boolean tests, patterns `True` / `False` / `_`)."""
+    comps = list(s.subject.elts) if isinstance(s.subject, ast.Tuple) else [s.subject]
+    if not all(_is_boolish(c) and _is_pure(c) for c in comps):
+        raise Bad("match: the subject is not a (tuple of) boolean test(s)")
+
+    def cell(p: ast.pattern) -> bool | None:
+        if isinstance(p, ast.MatchSingleton) and isinstance(p.value, bool):
+            return p.value
+        if isinstance(p, ast.MatchValue) and isinstance(p.value, ast.Constant) and isinstance(p.value.value, bool):
+            return p.value.value
+        if isinstance(p, ast.MatchAs) and p.pattern is None and p.name is None:
+            return None
+        raise Bad(f"match: unsupported pattern {ast.unparse(p)}")
+
+    rows: list[tuple[list[bool | None], list[ast.stmt]]] = []
+    for c in s.cases:
+        if c.guard is not None:
+            raise Bad("match: guards are not supported")
+        if isinstance(c.pattern, ast.MatchAs) and c.pattern.pattern is None and c.pattern.name is None:
+            cells: list[bool | None] = [None] * len(comps)
+        elif isinstance(s.subject, ast.Tuple) and isinstance(c.pattern, ast.MatchSequence) and len(c.pattern.patterns) == len(comps):
+            cells = [cell(p) for p in c.pattern.patterns]
+        elif not isinstance(s.subject, ast.Tuple):
+            cells = [cell(c.pattern)]
+        else:
+            raise Bad(f"match: unsupported pattern {ast.unparse(c.pattern)}")
+        rows.append((cells, c.body))
+
+    def build(rs: list[tuple[list[bool | None], list[ast.stmt]]], k: int) -> list[ast.stmt]:
+        if not rs:
+            return []
+        if all(c is None for c in rs[0][0][k:]):
+            return list(rs[0][1])
+        if all(r[0][k] is None for r in rs):
+            return build(rs, k + 1)
+        yes = build([r for r in rs if r[0][k] in (True, None)], k + 1)
+        no = build([r for r in rs if r[0][k] in (False, None)], k + 1)
+        return [ast.copy_location(ast.If(test=comps[k], body=yes or [ast.Pass()], orelse=no), s)]
+
+    return build(rows, 0)
+
+
 def _ends_block(stmts: list[ast.stmt]) -> bool:
     return bool(stmts) and isinstance(stmts[-1], (ast.Continue, ast.Return, ast.Break, ast.Raise))
 
 
 def _norm_block(stmts: list[ast.stmt]) -> list[ast.stmt]:
-    """AnnAssign -> Assign; guard clauses -> if/else; recursively."""
+    """AnnAssign -> Assign; `match` on boolean tests -> if-tree; guard clauses -> if/else; recursively."""
     out: list[ast.stmt] = []
     stmts = _no_doc(stmts)
+    flat: list[ast.stmt] = []
+    for s in stmts:
+        flat.extend(_match_to_if(s) if isinstance(s, ast.Match) else [s])
+    stmts = [s for s in flat if not isinstance(s, ast.Pass)]
     for i, s in enumerate(stmts):
         if isinstance(s, ast.AnnAssign):
             if s.value is None:
@@ -222,10 +460,346 @@ def _norm_block(stmts: list[ast.stmt]) -> list[ast.stmt]:
     return out
 
 
+# --------------------------------------------------------------------------- locals: dataflow, inlining, expansion
+PURE_CALLS = {"max", "min", "abs", "pow", "len", "sum", "float", "is_close_to_zero", "math.isclose"}
+
+
+def _is_pure(e: ast.AST) -> bool:
+    """Side-effect free arithmetic / comparison over names, attribute chains and subscripts."""
+    if isinstance(e, (ast.Name, ast.Constant)):
+        return True
+    if isinstance(e, ast.Attribute):
+        return _is_pure(e.value)
+    if isinstance(e, ast.Subscript):
+        return _is_pure(e.value) and _is_pure(e.slice)
+    if isinstance(e, (ast.BinOp,)):
+        return _is_pure(e.left) and _is_pure(e.right)
+    if isinstance(e, ast.UnaryOp):
+        return _is_pure(e.operand)
+    if isinstance(e, ast.BoolOp):
+        return all(_is_pure(v) for v in e.values)
+    if isinstance(e, ast.Compare):
+        return _is_pure(e.left) and all(_is_pure(c) for c in e.comparators)
+    if isinstance(e, ast.IfExp):
+        return _is_pure(e.test) and _is_pure(e.body) and _is_pure(e.orelse)
+    if isinstance(e, ast.Call):
+        return (ast.unparse(e.func) in PURE_CALLS and all(_is_pure(a) for a in e.args)
+                and all(k.arg is not None and _is_pure(k.value) for k in e.keywords))
+    if isinstance(e, (ast.GeneratorExp, ast.ListComp)):
+        return _is_pure(e.elt) and all(_is_pure(g.iter) and not g.is_async and all(_is_pure(i) for i in g.ifs)
+                                       for g in e.generators)
+    return False
+
+
+def _loaded_names(e: ast.AST) -> set[str]:
+    return {n.id for n in ast.walk(e) if isinstance(n, ast.Name) and isinstance(n.ctx, ast.Load)}
+
+
+def _store_bases(t: ast.AST) -> set[str]:
+    if isinstance(t, (ast.Tuple, ast.List)):
+        return set().union(*[_store_bases(x) for x in t.elts]) if t.elts else set()
+    if isinstance(t, ast.Starred):
+        return _store_bases(t.value)
+    b = _base_name(t)  # type: ignore[arg-type]
+    return {b} if b else set()
+
+
+def _bind_names(t: ast.AST) -> set[str]:
+    """Names (re)bound by an assignment target (`x`, `(x, y)`); `x.a` / `x[k]` bind nothing."""
+    if isinstance(t, ast.Name):
+        return {t.id}
+    if isinstance(t, (ast.Tuple, ast.List)):
+        return set().union(*[_bind_names(x) for x in t.elts]) if t.elts else set()
+    if isinstance(t, ast.Starred):
+        return _bind_names(t.value)
+    return set()
+
+
+def _own_binds(s: ast.stmt) -> set[str]:
+    """Names this statement itself (not the statements nested in it) gives a new value."""
+    out: set[str] = set()
+    if isinstance(s, ast.Assign):
+        for t in s.targets:
+            out |= _bind_names(t)
+    elif isinstance(s, (ast.AugAssign, ast.AnnAssign)):
+        out |= _bind_names(s.target)
+    elif isinstance(s, (ast.For, ast.AsyncFor)):
+        out |= _bind_names(s.target)
+    elif isinstance(s, ast.Delete):
+        for t in s.targets:
+            out |= _bind_names(t)
+    elif isinstance(s, (ast.With, ast.AsyncWith)):
+        for i in s.items:
+            if i.optional_vars is not None:
+                out |= _bind_names(i.optional_vars)
+    elif isinstance(s, (ast.Global, ast.Nonlocal)):
+        out |= set(s.names)
+    elif isinstance(s, (ast.FunctionDef, ast.AsyncFunctionDef, ast.ClassDef)):
+        out.add(s.name)
+    for h in _heads(s):
+        for c in ast.walk(h):
+            if isinstance(c, ast.NamedExpr):
+                out |= _bind_names(c.target)
+    return out
+
+
+def _heads(s: ast.stmt) -> list[ast.AST]:
+    if isinstance(s, (ast.Assign, ast.AugAssign, ast.AnnAssign, ast.Expr, ast.Return)):
+        return [s.value] if getattr(s, "value", None) is not None else []
+    if isinstance(s, (ast.If, ast.While)):
+        return [s.test]
+    if isinstance(s, (ast.For, ast.AsyncFor)):
+        return [s.iter]
+    if isinstance(s, ast.Match):
+        return [s.subject]
+    return []
+
+
+def _own_stores(s: ast.stmt) -> set[str]:
+    """Base names this statement itself may rebind OR mutate (`x.a = …`, `x[k] = …`, `x.m(…)`, `f(x)`)."""
+    out = _own_binds(s)
+    if isinstance(s, ast.Assign):
+        for t in s.targets:
+            out |= _store_bases(t)
+    elif isinstance(s, (ast.AugAssign, ast.AnnAssign)):
+        out |= _store_bases(s.target)
+    elif isinstance(s, ast.Delete):
+        for t in s.targets:
+            out |= _store_bases(t)
+    for h in _heads(s):
+        for c in ast.walk(h):
+            if isinstance(c, ast.Call) and not (ast.unparse(c.func) in PURE_CALLS):
+                # an unknown call may mutate its receiver and its arguments
+                if isinstance(c.func, ast.Attribute):
+                    b = _base_name(c.func.value)
+                    if b and b != "self" and b != "math":
+                        out.add(b)
+                for a in list(c.args) + [k.value for k in c.keywords]:
+                    if isinstance(a, ast.Starred):
+                        a = a.value
+                    b = _base_name(a) if isinstance(a, (ast.Name, ast.Attribute, ast.Subscript)) else None
+                    if b and b != "self":
+                        out.add(b)
+    return out
+
+
+def _reads_heap(e: ast.AST) -> bool:
+    return any(isinstance(n, (ast.Attribute, ast.Subscript)) for n in ast.walk(e))
+
+
+def _writes_heap(s: ast.stmt) -> bool:
+    """The statement itself (not the statements nested in it) may change an object: `x.a = …`, `x[k] = …`, `del x[k]`,
+    or a call the translator does not know (which may mutate anything it can reach)."""
+    ts: list[ast.AST] = []
+    if isinstance(s, ast.Assign):
+        ts = list(s.targets)
+    elif isinstance(s, (ast.AugAssign, ast.AnnAssign)):
+        ts = [s.target]
+    elif isinstance(s, ast.Delete):
+        ts = list(s.targets)
+    flat: list[ast.AST] = []
+    while ts:
+        t = ts.pop()
+        if isinstance(t, (ast.Tuple, ast.List)):
+            ts.extend(t.elts)
+        else:
+            flat.append(t)
+    if any(isinstance(t, (ast.Attribute, ast.Subscript)) for t in flat):
+        return True
+    return any(isinstance(c, ast.Call) and ast.unparse(c.func) not in PURE_CALLS for h in _heads(s) for c in ast.walk(h))
+
+
+class _Flow:
+    """Statement positions of one function: preorder index, enclosing loops, enclosing block — enough to decide
+    whether the value of a pure expression evaluated at statement `d` is still the same at statement `u`."""
+
+    def __init__(self, fn: ast.FunctionDef):
+        self.fn = fn
+        self.stmts: list[ast.stmt] = []
+        self.idx: dict[int, int] = {}
+        self.loops: dict[int, tuple[int, ...]] = {}
+        self.block: dict[int, tuple[list, int]] = {}
+        self.end: dict[int, int] = {}  # last preorder index inside the statement
+        self.owner: dict[int, ast.stmt] = {}  # id(expression node) -> statement whose head contains it
+        self._walk(fn.body, ())
+        self.params = {a.arg for a in fn.args.args + fn.args.kwonlyargs + fn.args.posonlyargs}
+        if fn.args.vararg:
+            self.params.add(fn.args.vararg.arg)
+        if fn.args.kwarg:
+            self.params.add(fn.args.kwarg.arg)
+
+    def _walk(self, stmts: list[ast.stmt], loops: tuple[int, ...]) -> None:
+        for i, s in enumerate(stmts):
+            k = len(self.stmts)
+            self.stmts.append(s)
+            self.idx[id(s)] = k
+            self.loops[id(s)] = loops
+            self.block[id(s)] = (stmts, i)
+            for f, v in ast.iter_fields(s):
+                if f in ("body", "orelse", "finalbody", "handlers", "cases"):
+                    continue
+                for x in (v if isinstance(v, list) else [v]):
+                    if isinstance(x, ast.AST):
+                        for c in ast.walk(x):
+                            self.owner[id(c)] = s
+            inner = loops + (k,) if isinstance(s, (ast.For, ast.While, ast.AsyncFor)) else loops
+            for f in ("body", "orelse", "finalbody"):
+                sub = getattr(s, f, None)
+                if isinstance(sub, list) and sub and isinstance(sub[0], ast.stmt):
+                    self._walk(sub, inner if f == "body" else loops)
+            for h in getattr(s, "handlers", []) or []:
+                self._walk(h.body, loops)
+            for c in getattr(s, "cases", []) or []:
+                self._walk(c.body, loops)
+            self.end[id(s)] = len(self.stmts) - 1
+
+    def defs(self, name: str) -> list[ast.stmt]:
+        return [s for s in self.stmts if name in _own_binds(s)]
+
+    def single_pure_def(self, name: str) -> ast.Assign | None:
+        """The statement `name = <pure expr>` if that is the only way `name` gets a value in this function."""
+        if name in self.params:
+            return None
+        ds = self.defs(name)
+        if len(ds) != 1:
+            return None
+        d = ds[0]
+        if not (isinstance(d, ast.Assign) and len(d.targets) == 1 and isinstance(d.targets[0], ast.Name) and _is_pure(d.value)):
+            return None
+        if isinstance(d.value, (ast.Name, ast.Attribute, ast.Subscript)) \
+                and any(name in _own_stores(s) for s in self.stmts if s is not d):
+            return None  # an alias of a (possibly mutable) object that is written through
+        if any(isinstance(n, (ast.FunctionDef, ast.Lambda)) and name in _loaded_names(n) for n in ast.walk(self.fn)
+               if n is not self.fn):
+            return None  # captured by a closure: evaluated later
+        return d
+
+    def same_value(self, d: ast.stmt, u: ast.stmt, expr: ast.AST) -> bool:
+        """`expr`, evaluated at `d`, has the same value when evaluated at `u` instead (`u` runs after `d`)."""
+        di, ui = self.idx[id(d)], self.idx[id(u)]
+        blk, i = self.block[id(d)]
+        if not (di < ui and any(self.idx[id(s)] <= ui <= self.end[id(s)] for s in blk[i + 1:])):
+            return False  # `u` is not in the part of d's block that follows d
+        names = _loaded_names(expr)
+        bound = {n.id for g in ast.walk(expr) if isinstance(g, ast.comprehension) for n in ast.walk(g.target)
+                 if isinstance(n, ast.Name)}
+        names -= bound
+        lo, hi = di + 1, ui
+        if isinstance(u, ast.While):  # the test is evaluated again after every iteration
+            hi = self.end[id(u)] + 1
+        for l in self.loops[id(u)]:
+            if l not in self.loops[id(d)] and l != di:  # `u` sits in a loop that `d` is outside of: the whole loop counts
+                lo, hi = min(lo, l), max(hi, self.end[id(self.stmts[l])] + 1)
+        heap = _reads_heap(expr)
+        for s in self.stmts[lo:hi]:
+            if s is u and not isinstance(u, (ast.For, ast.AsyncFor)):
+                continue
+            if _own_stores(s) & names:
+                return False
+            if heap and _writes_heap(s):  # aliases are not tracked: any write to an object may be a write to this one
+                return False
+        return True
+
+
+def _replace_node(root: ast.AST, old: ast.AST, new: ast.AST) -> bool:
+    for parent in ast.walk(root):
+        for f, v in ast.iter_fields(parent):
+            if v is old:
+                setattr(parent, f, new)
+                return True
+            if isinstance(v, list):
+                for i, x in enumerate(v):
+                    if x is old:
+                        v[i] = new
+                        return True
+    return False
+
+
+def _inline_single_use(fn: ast.FunctionDef) -> None:
+    """`x = <pure expr>` used exactly once, with nothing in between that could change the value: put the expression
+    where it is used and drop the assignment (undoes an "extract variable" refactor, whatever the name)."""
+    for _ in range(200):
+        fl = _Flow(fn)
+        done = False
+        for d in fl.stmts:
+            if not (isinstance(d, ast.Assign) and len(d.targets) == 1 and isinstance(d.targets[0], ast.Name)):
+                continue
+            x = d.targets[0].id
+            if fl.single_pure_def(x) is not d:
+                continue
+            uses = [n for n in ast.walk(fn) if isinstance(n, ast.Name) and n.id == x and isinstance(n.ctx, ast.Load)]
+            if len(uses) != 1 or id(uses[0]) not in fl.owner:
+                continue
+            u = fl.owner[id(uses[0])]
+            if x in _own_stores(u) and not isinstance(u, ast.Assign):
+                continue
+            if not fl.same_value(d, u, d.value):
+                continue
+            # not below a lambda / comprehension that rebinds one of the names of the expression
+            shadow = False
+            for sc in ast.walk(u):
+                if isinstance(sc, (ast.Lambda, ast.GeneratorExp, ast.ListComp, ast.SetComp, ast.DictComp)) \
+                        and any(n is uses[0] for n in ast.walk(sc)):
+                    bound = {a.arg for a in sc.args.args} if isinstance(sc, ast.Lambda) else \
+                        {n.id for g in sc.generators for n in ast.walk(g.target) if isinstance(n, ast.Name)}
+                    if bound & _loaded_names(d.value):
+                        shadow = True
+            if shadow:
+                continue
+            if not _replace_node(u, uses[0], d.value):
+                continue
+            blk, i = fl.block[id(d)]
+            del blk[i]
+            if not blk:
+                blk.append(ast.Pass())
+            done = True
+            break
+        if not done:
+            return
+
+
+def _expand(node: ast.AST, flows: list[_Flow], roles: set[int], site: ast.stmt | None = None, depth: int = 0) -> ast.AST:
+    """Copy of `node` in which every local that merely NAMES a pure sub-expression is replaced by that expression.
+
+    A local is expanded when it is assigned exactly once (`x = <pure expr>`), that expression is not itself the body
+    of an extracted definition (`roles`: then the local stands for the result of that definition in the model) and
+    nothing between the assignment and the place of use can change its value.  So the translated term does not
+    depend on whether (or under which name) a sub-expression was given a name."""
+    if depth > 40:
+        raise Bad("expansion of locals does not terminate")
+    if isinstance(node, ast.Name) and isinstance(node.ctx, ast.Load):
+        fl = next((f for f in flows if id(node) in f.owner), None)
+        u = fl.owner[id(node)] if fl is not None else site
+        fl = fl or next((f for f in flows if site is not None and id(site) in f.idx), None)
+        if fl is None or u is None:
+            return node
+        d = fl.single_pure_def(node.id)
+        if d is None or id(d.value) in roles or d is u or not fl.same_value(d, u, d.value):
+            return node
+        return _expand(d.value, flows, roles, d, depth + 1)
+    if isinstance(node, (ast.Lambda, ast.GeneratorExp, ast.ListComp, ast.SetComp, ast.DictComp)):
+        return node  # opaque operands: never looked into
+    new = None
+    for f, v in ast.iter_fields(node):
+        if isinstance(v, ast.AST):
+            w = _expand(v, flows, roles, site, depth)
+            if w is not v:
+                new = new or copy.copy(node)
+                setattr(new, f, w)
+        elif isinstance(v, list) and v and isinstance(v[0], ast.AST):
+            ws = [_expand(x, flows, roles, site, depth) for x in v]
+            if any(a is not b for a, b in zip(ws, v)):
+                new = new or copy.copy(node)
+                setattr(new, f, ws)
+    return new or node
+
+
 def _norm_func(tree: ast.AST, name: str) -> ast.FunctionDef:
     fn = copy.deepcopy(_func(tree, name))
+    _inline_procedures(fn, _class_of(tree, name))
     fn = _InlineHelpers(_class_of(tree, name)).visit(fn)
     fn.body = _norm_block(fn.body)
+    _inline_single_use(fn)
     ast.fix_missing_locations(fn)
     return fn
 
@@ -272,6 +846,47 @@ def _walk_paths(stmts: list[ast.stmt], path: Path, into_loops: bool = True):
             yield from _walk_paths(s.orelse, path + [(s.test, False)], into_loops)
         elif isinstance(s, (ast.For, ast.While)) and into_loops:
             yield from _walk_paths(s.body, path, into_loops)
+
+
+def _return_paths(stmts: list[ast.stmt], env: dict[str, ast.expr] | None = None, path: Path | None = None):
+    """Every way through a statement list to a top-level `return`: yields (returned expression, path).
+
+    Statements after an `if` are continued in both arms; `return a if c else b` is two paths; a pure local assigned on
+    the way (`flag = <test>`) is substituted into the tests and the result that mention it.  So `if c: return X`,
+    `flag = c; …; return X if flag else None` and `if not c: return None; return X` all give the path `[(c, True)]`
+    to `X`.  Loops are stepped over (returns inside them are not enumerated; names they assign are forgotten)."""
+    env = dict(env or {})
+    path = list(path or [])
+
+    def sub(e: ast.expr) -> ast.expr:
+        return _Subst(env).visit(copy.deepcopy(e)) if env else e
+
+    for i, s in enumerate(stmts):
+        if isinstance(s, ast.Assign) and len(s.targets) == 1 and isinstance(s.targets[0], ast.Name) and _is_pure(s.value):
+            val = sub(s.value)
+            for k in [k for k, v in env.items() if s.targets[0].id in _loaded_names(v)]:
+                env.pop(k)
+            env[s.targets[0].id] = val
+            continue
+        if isinstance(s, ast.If):
+            t = sub(s.test)
+            yield from _return_paths(s.body + stmts[i + 1:], env, path + [(t, True)])
+            yield from _return_paths(s.orelse + stmts[i + 1:], env, path + [(t, False)])
+            return
+        if isinstance(s, ast.Return):
+            if isinstance(s.value, ast.IfExp):
+                t = sub(s.value.test)
+                yield sub(s.value.body), path + [(t, True)]
+                yield sub(s.value.orelse), path + [(t, False)]
+            else:
+                yield (sub(s.value) if s.value is not None else None), path
+            return
+        # anything else (loops, calls, stores into objects, …): forget every local it may invalidate
+        inner = [x for x in ast.walk(s) if isinstance(x, ast.stmt)]
+        written = set().union(*[_own_stores(x) for x in inner])
+        heap = any(_writes_heap(x) for x in inner)
+        for k in [k for k, v in env.items() if k in written or _loaded_names(v) & written or (heap and _reads_heap(v))]:
+            env.pop(k)
 
 
 def _cond(path: Path, what: str, last_only: bool = False, negate: bool = False) -> ast.expr:
@@ -343,6 +958,26 @@ def _base_name(e: ast.expr) -> str | None:
     return e.id if isinstance(e, ast.Name) else None
 
 
+def _items_loop(loop: ast.For, what: str) -> tuple[str, str]:
+    """(dict, value variable) of `for <key>, <value> in <dict>.items()` or of
+    `for <key> in <dict> [.keys()]: <value> = <dict>[<key>]; …` (first statement of the body)."""
+    it, tg = loop.iter, loop.target
+    if isinstance(it, ast.Call) and isinstance(it.func, ast.Attribute) and it.func.attr == "items" and not it.args \
+            and isinstance(it.func.value, ast.Name) and isinstance(tg, ast.Tuple) and len(tg.elts) == 2 \
+            and all(isinstance(e, ast.Name) for e in tg.elts):
+        return it.func.value.id, tg.elts[1].id  # type: ignore[attr-defined]
+    d = it
+    if isinstance(d, ast.Call) and isinstance(d.func, ast.Attribute) and d.func.attr == "keys" and not d.args:
+        d = d.func.value
+    if isinstance(d, ast.Call) and ast.unparse(d.func) in ("list", "tuple") and len(d.args) == 1:
+        d = d.args[0]
+    first = loop.body[0] if loop.body else None
+    if isinstance(d, ast.Name) and isinstance(tg, ast.Name) and isinstance(first, ast.Assign) and len(first.targets) == 1 \
+            and isinstance(first.targets[0], ast.Name) and ast.unparse(first.value) == f"{d.id}[{tg.id}]":
+        return d.id, first.targets[0].id
+    raise Bad(f"{what}: expected `for <key>, <value> in <dict>.items()`")
+
+
 # --------------------------------------------------------------------------- generate
 HEADER = """import Frequenz.Model.Prelude
 
@@ -401,17 +1036,28 @@ def generate(repo: pathlib.Path) -> str:
                "def isClose (a b : Rat) : Prop := mathIsClose a b relTol 0\n"
                "instance {a b : Rat} : Decidable (isClose a b) := by unfold isClose; exact inferInstance\n")
 
+    queue: list[tuple] = []  # definitions are rendered at the end, when every role expression is known
+    flows: list[_Flow] = []
+
     def add(name: str, node: ast.expr, arity: int, kind: str = "val") -> None:
-        out.append(lean_def(name, node, arity, kind, ast.unparse(node)))
+        queue.append(("def", name, node, arity, kind))
+
+    def raw(text: str) -> None:
+        queue.append(("raw", text))
+
+    def norm(tree: ast.AST, fname: str) -> ast.FunctionDef:
+        fn = _norm_func(tree, fname)
+        flows.append(_Flow(fn))
+        return fn
 
     def is_max0_sub(n: ast.AST) -> bool:
         return (_is_call(n, "max", 2) and isinstance(n.args[0], ast.Constant)  # type: ignore[attr-defined]
                 and isinstance(n.args[1], ast.BinOp) and isinstance(n.args[1].op, ast.Sub))  # type: ignore[attr-defined]
 
     # ---- available SoC: the `max(<const>, x - y)` of each side
-    fc = _norm_func(algo, "_distribute_consume_power")
+    fc = norm(algo, "_distribute_consume_power")
     add("availConsume", _one([n for n in ast.walk(fc) if is_max0_sub(n)], "consume: max(0.0, a - b)"), 2)
-    fs = _norm_func(algo, "_distribute_supply_power")
+    fs = norm(algo, "_distribute_supply_power")
     add("availSupply", _one([n for n in ast.walk(fs) if is_max0_sub(n)], "supply: max(0.0, a - b)"), 2)
     # sign handling of the supply side: the power handed to `_distribute_power`, `*=` on set-points and remainder
     call = _one([n for n in ast.walk(fs) if _is_call(n, "self._distribute_power", 5)], "supply: self._distribute_power(...)")
@@ -426,7 +1072,7 @@ def generate(repo: pathlib.Path) -> str:
         raise Bad("_distribute_consume_power no longer passes its power through unchanged")
 
     # ---- _inclusion_exclusion_bounds: roles from the returned tuple, the inner loop variable and the `supply` flag
-    fb = _norm_func(algo, "_inclusion_exclusion_bounds")
+    fb = norm(algo, "_inclusion_exclusion_bounds")
     if len(fb.args.args) != 3:
         raise Bad("_inclusion_exclusion_bounds signature changed")
     flag = fb.args.args[2].arg
@@ -471,41 +1117,63 @@ def generate(repo: pathlib.Path) -> str:
             add(k, found[k], ar)
 
     # ---- _compute_battery_availability_ratio
-    fr = _norm_func(algo, "_compute_battery_availability_ratio")
+    fr = norm(algo, "_compute_battery_availability_ratio")
     stm = _stmts_in(fr.body)
 
     def local_def(name: str, scope_stmts) -> ast.expr:
         return _one([s for s, _ in scope_stmts if isinstance(s, ast.Assign) and _tsrc(s) == name], f"definition of {name}").value
 
+    def resolve(e: ast.expr) -> ast.expr:
+        """A local that names a value -> the expression it was assigned (when assigned exactly once)."""
+        if isinstance(e, ast.Name):
+            ds = [s for s, _ in stm if isinstance(s, ast.Assign) and _tsrc(s) == e.id]
+            if len(ds) == 1:
+                return ds[0].value
+        return e
+
     ar_call = _one([n for n in ast.walk(fr) if _is_call(n, "AvailabilityRatio")], "AvailabilityRatio(...)")
-    if len(ar_call.args) != 3 or not isinstance(ar_call.args[2], ast.Name):
+    ar_cls = next((n for n in ast.walk(algo) if isinstance(n, ast.ClassDef) and n.name == "AvailabilityRatio"), None)
+    ar_fields = [x.target.id for x in (ar_cls.body if ar_cls else []) if isinstance(x, ast.AnnAssign) and isinstance(x.target, ast.Name)]
+    if ar_fields != ["battery_id", "inverter_ids", "ratio", "min_power"]:
+        raise Bad(f"AvailabilityRatio fields changed: {ar_fields}")
+    ar_args: dict[str, ast.expr] = dict(zip(ar_fields, ar_call.args))
+    for k in ar_call.keywords:
+        if k.arg is None or k.arg in ar_args or k.arg not in ar_fields:
+            raise Bad("AvailabilityRatio(...): arguments")
+        ar_args[k.arg] = k.value
+    if set(ar_args) != set(ar_fields):
         raise Bad("AvailabilityRatio(battery_id, inverter_ids, ratio, min_power=…) changed")
-    ratio_e = local_def(ar_call.args[2].id, stm)
-    if not (isinstance(ratio_e, ast.BinOp) and isinstance(ratio_e.op, ast.Mult)
-            and all(isinstance(x, ast.Name) for x in (ratio_e.left, ratio_e.right))):
+    ratio_e = resolve(ar_args["ratio"])
+    if not (isinstance(ratio_e, ast.BinOp) and isinstance(ratio_e.op, ast.Mult)):
         raise Bad("ratio is no longer <capacity ratio> * <soc factor>")
-    defs = {x.id: local_def(x.id, stm) for x in (ratio_e.left, ratio_e.right)}  # type: ignore[attr-defined]
-    cap_v = [k for k, v in defs.items() if isinstance(v, ast.BinOp) and isinstance(v.op, ast.Div)]
-    soc_v = [k for k, v in defs.items() if _is_call(v, "pow", 2)]
+    factors = [resolve(ratio_e.left), resolve(ratio_e.right)]
+    cap_v = [v for v in factors if isinstance(v, ast.BinOp) and isinstance(v.op, ast.Div)]
+    soc_v = [v for v in factors if _is_call(v, "pow", 2)]
     if len(cap_v) != 1 or len(soc_v) != 1:
         raise Bad("ratio: operands are no longer a quotient and a pow(...)")
-    add("capRatio", defs[cap_v[0]], 2)
-    if ast.unparse(defs[soc_v[0]].args[1]) != "self._distributor_exponent":  # type: ignore[attr-defined]
+    add("capRatio", cap_v[0], 2)
+    if ast.unparse(soc_v[0].args[1]) != "self._distributor_exponent":  # type: ignore[attr-defined]
         raise Bad("soc_factor is no longer pow(<available soc>, self._distributor_exponent)")
-    out.append("/-- `soc_factor = pow(available_soc[...], self._distributor_exponent)` (natural exponents; "
-               "`pow(0.0, 0) = 1`) -/\ndef socFactor (a : Rat) (e : Nat) : Rat := a ^ e\n")
-    # parameters of ratioOf in the order (capacity ratio, soc factor), whatever the order of the factors
-    ordered = ast.BinOp(left=ast.Name(id=cap_v[0]), op=ast.Mult(), right=ast.Name(id=soc_v[0])) \
-        if ratio_e.left.id == cap_v[0] else ratio_e  # type: ignore[attr-defined]
-    out.append(lean_def("ratioOf", ordered, 2, "val", ast.unparse(ratio_e))
-               if ratio_e.left.id == cap_v[0] else  # type: ignore[attr-defined]
-               lean_def("ratioOf", ast.BinOp(left=ast.Name(id=soc_v[0]), op=ast.Mult(), right=ast.Name(id=cap_v[0])), 2,
-                        "val", ast.unparse(ratio_e)).replace("(a0 : Rat) (a1 : Rat)", "(a1 : Rat) (a0 : Rat)"))
-    add("minPower", _kwarg(ar_call, "min_power"), 2)
-    sorts = [n for n in ast.walk(fr) if isinstance(n, ast.Call) and isinstance(n.func, ast.Attribute) and n.func.attr == "sort"
+    raw("/-- `soc_factor = pow(available_soc[...], self._distributor_exponent)` (natural exponents; "
+        "`pow(0.0, 0) = 1`) -/\ndef socFactor (a : Rat) (e : Nat) : Rat := a ^ e\n")
+    # parameters of ratioOf in the order (capacity ratio, soc factor), whatever the order of the two factors
+    # (a product of two floats does not depend on the order of the factors)
+    add("ratioOf", ast.BinOp(left=ast.Name(id="capacity_ratio", ctx=ast.Load()), op=ast.Mult(),
+                             right=ast.Name(id="soc_factor", ctx=ast.Load())), 2)
+    add("minPower", ar_args["min_power"], 2)
+    # `<list>.sort(key=…, reverse=…)` or `<list> = sorted(<list>, key=…, reverse=…)` (both stable)
+    sorts = [n for n in ast.walk(fr) if isinstance(n, ast.Call)
+             and ((isinstance(n.func, ast.Attribute) and n.func.attr == "sort" and not n.args)
+                  or (ast.unparse(n.func) == "sorted" and len(n.args) == 1))
              and any(k.arg == "key" and isinstance(k.value, ast.Lambda) and isinstance(k.value.body, ast.Tuple)
                      and all(isinstance(e, ast.Attribute) for e in k.value.body.elts) for k in n.keywords)]
     sort = _one(sorts, "sort of the availability ratios")
+    if ast.unparse(sort.func) == "sorted":
+        st = [s for s, _ in stm if isinstance(s, ast.Assign) and s.value is sort]
+        if not (len(st) == 1 and _tsrc(st[0]) == ast.unparse(sort.args[0])):
+            raise Bad("sorted(<ratios>, …) is not assigned back to the list it sorts")
+    if {k.arg for k in sort.keywords} - {"key", "reverse"}:
+        raise Bad("sort: unexpected arguments")
     key = _kwarg(sort, "key")
     rev = _kwarg(sort, "reverse") if any(k.arg == "reverse" for k in sort.keywords) else ast.Constant(value=False)
     if not (isinstance(rev, ast.Constant) and isinstance(rev.value, bool)):
@@ -519,14 +1187,14 @@ def generate(repo: pathlib.Path) -> str:
     lex = "False"
     for fld in reversed(fields):
         lex = f"{fld}1 < {fld}2 ∨ ({fld}1 = {fld}2 ∧ ({lex}))"
-    out.append(f"/-- `<ratios>.sort(key=(" + ", ".join("min_power" if x == "m" else "ratio" for x in fields) +
-               f"), reverse={rev.value})`: strict order of the keys -/\n"
-               f"def sortKeyLt (m1 r1 m2 r2 : Rat) : Prop :=\n  {lex}\n"
-               "instance {m1 r1 m2 r2 : Rat} : Decidable (sortKeyLt m1 r1 m2 r2) := by unfold sortKeyLt; exact inferInstance\n"
-               f"def sortReverse : Bool := {'true' if rev.value else 'false'}\n")
+    raw(f"/-- `<ratios>.sort(key=(" + ", ".join("min_power" if x == "m" else "ratio" for x in fields) +
+        f"), reverse={rev.value})`: strict order of the keys -/\n"
+        f"def sortKeyLt (m1 r1 m2 r2 : Rat) : Prop :=\n  {lex}\n"
+        "instance {m1 r1 m2 r2 : Rat} : Decidable (sortKeyLt m1 r1 m2 r2) := by unfold sortKeyLt; exact inferInstance\n"
+        f"def sortReverse : Bool := {'true' if rev.value else 'false'}\n")
 
     # ---- _distribute_power
-    fd = _norm_func(algo, "_distribute_power")
+    fd = norm(algo, "_distribute_power")
     if len(fd.args.args) != 6:
         raise Bad("_distribute_power signature changed")
     p_power = fd.args.args[2].arg
@@ -541,10 +1209,11 @@ def generate(repo: pathlib.Path) -> str:
     ls = _stmts_in(loop.body)
     share_s, share_path = _one([(s, p) for s, p in ls if isinstance(s, ast.Assign) and is_share(s.value)], "share assignment")
     share_e = share_s.value
-    if not (isinstance(share_e.left.left, ast.Name) and isinstance(share_e.right, ast.Name)  # type: ignore[attr-defined]
-            and isinstance(share_s.targets[0], ast.Name)):
+    ptd_e = share_e.left.left  # type: ignore[attr-defined]
+    if not ((isinstance(ptd_e, ast.Name) or (isinstance(ptd_e, ast.BinOp) and isinstance(ptd_e.op, ast.Sub)))
+            and isinstance(share_e.right, ast.Name) and isinstance(share_s.targets[0], ast.Name)):  # type: ignore[attr-defined]
         raise Bad("share: expected <to distribute> * <entry ratio> / <running ratio>")
-    v_ptd, v_ratio, v_share = share_e.left.left.id, share_e.right.id, share_s.targets[0].id  # type: ignore[attr-defined]
+    v_ratio, v_share = share_e.right.id, share_s.targets[0].id  # type: ignore[attr-defined]
     # tail branch: the arm that does not compute the share stores _Power(0.0, 0.0)
     add("tailCond", _cond(share_path, "tail test", negate=True), 1, "prop")
     tail_calls = [c for s, p in ls if p and p[0][0] is share_path[0][0] and p[0][1] != share_path[0][1]
@@ -553,9 +1222,17 @@ def generate(repo: pathlib.Path) -> str:
     if {k.arg: ast.unparse(k.value) for k in tc.keywords} != {"upper_bound": "0.0", "power": "0.0"}:
         raise Bad("tail branch no longer stores _Power(upper_bound=0.0, power=0.0)")
     main = [(s, p[len(share_path):]) for s, p in ls if p[:len(share_path)] == share_path]  # statements of the main arm
-    add("powerToDistribute", _one([s for s, p in main if isinstance(s, ast.Assign) and _tsrc(s) == v_ptd and not p],
-                                  "power to distribute").value, 2)
-    add("calcPower", share_e, 3)
+    if isinstance(ptd_e, ast.Name):
+        add("powerToDistribute", _one([s for s, p in main if isinstance(s, ast.Assign) and _tsrc(s) == ptd_e.id and not p],
+                                      "power to distribute").value, 2)
+        add("calcPower", share_e, 3)
+    else:  # the amount to distribute is written directly into the share: cut the expression at the same place
+        add("powerToDistribute", ptd_e, 2)
+        queue.append(("role", share_e))  # the local holding the share still stands for the result of `calcPower`
+        cut = copy.copy(share_e)
+        cut.left = copy.copy(share_e.left)  # type: ignore[attr-defined]
+        cut.left.left = ast.Name(id="power_to_distribute", ctx=ast.Load())  # type: ignore[attr-defined]
+        add("calcPower", cut, 3)
     augs = [s for s, p in main if isinstance(s, ast.AugAssign) and isinstance(s.op, ast.Add) and not p]
     res_s = _one([s for s in augs if _is_call(s.value, "max", 2)], "reserved += max(...)")
     add("reserveInc", res_s.value, 2)
@@ -571,12 +1248,7 @@ def generate(repo: pathlib.Path) -> str:
     add("distributedInc", dist_s.value, 1)
     v_dist = _tsrc(dist_s)
     # three-way branch: arms are single subscript assignments `<dict>[...] = x - y`
-    if not (isinstance(dloop.iter, ast.Call) and isinstance(dloop.iter.func, ast.Attribute) and dloop.iter.func.attr == "items"
-            and isinstance(dloop.iter.func.value, ast.Name) and isinstance(dloop.target, ast.Tuple) and len(dloop.target.elts) == 2
-            and all(isinstance(e, ast.Name) for e in dloop.target.elts)):
-        raise Bad("deficit loop: expected `for <key>, <deficit> in <deficits>.items()`")
-    d_deficits = dloop.iter.func.value.id
-    v_deficit = dloop.target.elts[1].id  # type: ignore[attr-defined]
+    d_deficits, v_deficit = _items_loop(dloop, "deficit loop")
     arms = [(s, p) for s, p in main if p and isinstance(s, ast.Assign) and isinstance(s.targets[0], ast.Subscript)
             and isinstance(s.value, ast.BinOp) and isinstance(s.value.op, ast.Sub) and not _contains(s, lambda n: _is_call(n, "_Power"))]
     if len(arms) != 3:
@@ -601,16 +1273,30 @@ def generate(repo: pathlib.Path) -> str:
     # deficit covering
     ds = _stmts_in(dloop.body, into_loops=False)
     wh = _one([s for s, p in ds if isinstance(s, ast.While) and not p], "while loop")
-    add("coverCond", nnf(wh.test), 1, "prop")
+    # `while A: if not <excess dict>: break; …`  is the same loop as  `while A and <excess dict>: …`
+    wtest = nnf(wh.test)
+    conj = list(wtest.values) if isinstance(wtest, ast.BoolOp) and isinstance(wtest.op, ast.And) else [wtest]
+    in_test = [v for v in conj if isinstance(v, ast.Name) and v.id == d_excess]
+    conj = [v for v in conj if v not in in_test]
+    if not conj:
+        raise Bad("while loop: no condition on the deficit")
+    add("coverCond", conj[0] if len(conj) == 1 else ast.BoolOp(op=ast.And(), values=conj), 1, "prop")
     ws = _stmts_in(wh.body)
     breaks = [(s, p) for s, p in ws if isinstance(s, ast.Break)]
     empty_break = [(s, p) for s, p in breaks if ast.unparse(_cond(p, "break", last_only=True)) == f"not {d_excess}"]
-    _one(empty_break, "`if not <excess dict>: break`")
+    if len(empty_break) + len(in_test) != 1:
+        raise Bad("the covering loop must stop when the excess dict is empty (`if not <excess dict>: break`), exactly once")
     stop = _one([(s, p) for s, p in breaks if (s, p) not in empty_break], "largest-stop break")
     add("largestStop", _cond(stop[1], "largest stop", last_only=True), 1, "prop")
-    lg = [s for s, p in ws if isinstance(s, ast.Assign) and _contains(s.value, lambda n: _is_call(n, "max"))]
-    if "max(%s.items(), key=lambda item: item[1])" % d_excess not in ast.unparse(_one(lg, "largest").value):
-        raise Bad("largest is no longer max(<excess dict>.items(), key=item[1])")
+    lg = [c for s, p in ws if isinstance(s, ast.Assign) for c in ast.walk(s.value) if _is_call(c, "max")]
+    mx = _one(lg, "largest")
+    mkey = [k.value for k in mx.keywords if k.arg == "key"]
+    by_value = (len(mkey) == 1 and (
+        (isinstance(mkey[0], ast.Lambda) and len(mkey[0].args.args) == 1
+         and ast.unparse(mkey[0].body) == f"{mkey[0].args.args[0].arg}[1]")
+        or ast.unparse(mkey[0]) in ("operator.itemgetter(1)", "itemgetter(1)")))
+    if not (len(mx.args) == 1 and ast.unparse(mx.args[0]) == f"{d_excess}.items()" and len(mx.keywords) == 1 and by_value):
+        raise Bad("largest is no longer max(<excess dict>.items(), key=<second component>)")
     cov_aug = _one([(s, p) for s, p in ws if isinstance(s, ast.AugAssign) and isinstance(s.op, ast.Add)
                     and isinstance(s.target, ast.Subscript) and _base_name(s.target) == d_excess], "cover: excess[...] += deficit")
     add("covers", _cond(cov_aug[1], "covers", last_only=True), 2, "prop")
@@ -647,13 +1333,19 @@ def generate(repo: pathlib.Path) -> str:
     add("excessPowerInc", _one([s for s, p in xs if isinstance(s, ast.AugAssign) and isinstance(s.op, ast.Add)
                                 and isinstance(s.target, ast.Attribute) and s.target.attr == "power"], "excess loop: .power +=").value, 1)
     top = [s for s, p in _stmts_in(fd.body, into_loops=False)]
-    add("finalLeftOver", _one([s for s in top if isinstance(s, ast.Assign) and isinstance(s.value, ast.BinOp)
-                               and isinstance(s.value.op, ast.Sub) and isinstance(s.value.left, ast.Name)
-                               and s.value.left.id == p_power and isinstance(s.value.right, ast.Name)
-                               and s.value.right.id == v_dist], "final left_over").value, 2)
+    def is_final_left_over(v: ast.AST) -> bool:
+        return (isinstance(v, ast.BinOp) and isinstance(v.op, ast.Sub) and isinstance(v.left, ast.Name)
+                and v.left.id == p_power and isinstance(v.right, ast.Name) and v.right.id == v_dist)
+
+    # what is left after the excess loop: assigned to a local, or handed directly to the greedy top-up
+    flo = [s.value for s in top if isinstance(s, ast.Assign) and is_final_left_over(s.value)]
+    flo += [a for s in top if isinstance(s, (ast.Assign, ast.Expr, ast.Return)) and s.value is not None
+            for c in ast.walk(s.value) if _is_call(c, "self._greedy_distribute_remaining_power", 2)
+            for a in c.args[1:] if is_final_left_over(a)]
+    add("finalLeftOver", _one(flo, "final left_over"), 2)
 
     # ---- greedy
-    fg = _norm_func(algo, "_greedy_distribute_remaining_power")
+    fg = norm(algo, "_greedy_distribute_remaining_power")
     gs = _stmts_in(fg.body, into_loops=False)
     gl = _one([(s, p) for s, p in gs if isinstance(s, ast.For)], "greedy loop")
     add("greedyExit", _cond(gl[1], "greedy exit", negate=True), 1, "prop")
@@ -667,7 +1359,7 @@ def generate(repo: pathlib.Path) -> str:
                               and isinstance(s.target, ast.Name)], "greedy: remaining -=").value, 1)
 
     # ---- multi-inverter split
-    fm = _norm_func(algo, "_distribute_multi_inverter_pairs")
+    fm = norm(algo, "_distribute_multi_inverter_pairs")
     ofor = _one([s for s, p in _stmts_in(fm.body, into_loops=False) if isinstance(s, ast.For)], "split: outer loop")
     os_ = _stmts_in(ofor.body, into_loops=False)
     ifor = _one([(s, p) for s, p in os_ if isinstance(s, ast.For)], "split: inner loop")
@@ -686,22 +1378,39 @@ def generate(repo: pathlib.Path) -> str:
     sub_as = [(s, p) for s, p in ib if isinstance(s, ast.Assign) and isinstance(s.targets[0], ast.Subscript)]
     add("splitAssigned", _one([s for s, p in sub_as if p == dec[1]], "split: assigned power").value, 1)
     add("splitRemDec", dec[0].value, 1)
-    add("splitSkipped", _one([s for s, p in sub_as if p != dec[1]], "split: skipped inverter").value, 0)
+    skipped = [s.value for s, p in sub_as if p != dec[1]]
+    if not skipped or len({ast.unparse(v) for v in skipped}) != 1:
+        raise Bad(f"split: skipped inverter: expected one value for every inverter that is passed over, found {len(skipped)}")
+    add("splitSkipped", skipped[0], 0)
 
     # ---- distribute_power (zero request, side selection)
-    fz = _norm_func(algo, "distribute_power")
+    fz = norm(algo, "distribute_power")
     zs = _stmts_in(fz.body)
-    cons = _one([(s, p) for s, p in zs if isinstance(s, ast.Return) and _contains(s, lambda n: _is_call(n, "self._distribute_consume_power"))],
-                "distribute_power: consume call")
-    supp = _one([(s, p) for s, p in zs if isinstance(s, ast.Return) and _contains(s, lambda n: _is_call(n, "self._distribute_supply_power"))],
-                "distribute_power: supply call")
+    def side_call(method: str, what: str):
+        s, p = _one([(s, p) for s, p in zs if isinstance(s, (ast.Return, ast.Assign))
+                     and _contains(s.value, lambda n: _is_call(n, method))], what)  # type: ignore[arg-type]
+        call = s.value
+        if not (_is_call(call, method, 2) and not call.keywords  # type: ignore[union-attr]
+                and [ast.unparse(a) for a in call.args] == [a.arg for a in fz.args.args[1:3]]):  # type: ignore[union-attr]
+            raise Bad(f"{what}: expected {method}(power, components) with the unchanged arguments")
+        if isinstance(s, ast.Assign):  # `result = …; return result`
+            t = _tsrc(s)
+            sides = ("self._distribute_consume_power", "self._distribute_supply_power")
+            if not any(isinstance(x, ast.Return) and x.value is not None and ast.unparse(x.value) == t for x, _ in zs) \
+                    or any(t in _own_binds(x) and not (isinstance(x, ast.Assign) and any(_is_call(x.value, m) for m in sides))
+                           for x, _ in zs):
+                raise Bad(f"{what}: the result is not returned unchanged")
+        return s, p
+
+    cons = side_call("self._distribute_consume_power", "distribute_power: consume call")
+    supp = side_call("self._distribute_supply_power", "distribute_power: supply call")
     if len(cons[1]) != 2 or len(supp[1]) != 2 or cons[1][0] != supp[1][0] or cons[1][1][0] is not supp[1][1][0]:
         raise Bad("distribute_power: expected zero test, then side test")
     add("zeroRequest", _cond(cons[1][:1], "zero request", negate=True), 1, "prop")
     add("consumeRequest", _cond(cons[1], "consume request", last_only=True), 1, "prop")
 
     # ---- battery manager: reporting and admission
-    fm2 = _norm_func(mgr, "_distribute_power")
+    fm2 = norm(mgr, "_distribute_power")
     dv = _one([s for s, p in _stmts_in(fm2.body) if isinstance(s, ast.Assign) and isinstance(s.value, ast.BinOp)
                and isinstance(s.value.op, ast.Sub) and "as_watts()" in ast.unparse(s.value.left)], "manager: distributed value")
     add("mgrDistributed", dv.value, 2)
@@ -716,17 +1425,22 @@ def generate(repo: pathlib.Path) -> str:
     pb = _one([n for n in ast.walk(gb2) if _is_call(n, "PowerBounds")], "_get_bounds: PowerBounds(...)")
     add("advExclLower", _kwarg(pb, "exclusion_lower"), 2)
     add("advExclUpper", _kwarg(pb, "exclusion_upper"), 2)
-    cr = _norm_func(mgr, "_check_request")
-    rej = []
-    for s, p in _stmts_in(cr.body):
-        if isinstance(s, ast.Return) and _contains(s, lambda n: _is_call(n, "OutOfBounds")):
-            def is_flag(e: ast.expr) -> bool:
-                return isinstance(e, ast.Attribute) and e.attr == "adjust_power"
+    cr = norm(mgr, "_check_request")
 
+    def is_flag(e: ast.expr) -> bool:
+        return isinstance(e, ast.Attribute) and e.attr == "adjust_power"
+
+    rej = []
+    for v, p in _return_paths(cr.body):
+        if v is not None and _contains(v, lambda n: _is_call(n, "OutOfBounds")):
+            if not _is_call(v, "OutOfBounds"):
+                raise Bad("_check_request: OutOfBounds(...) is not returned as it is")
             pols = [pol for t, pol in p if is_flag(nnf(t))] + [not pol for t, pol in p if is_flag(nnf(t, True))]
             if pols == [True]:
-                rej.append((s, p))
+                rej.append((v, p))
     rj = _one(rej, "_check_request: rejection with adjust_power")
+    if is_flag(nnf(rj[1][-1][0])) or is_flag(nnf(rj[1][-1][0], True)):
+        raise Bad("_check_request: the exclusion test must be decided after the adjust_power flag")
     add("rejectedAdjust", _cond(rj[1], "rejection test", last_only=True), 3, "prop")
 
     # ---- the bounds the battery pool ADVERTISES (PowerBoundsCalculator.calculate): per battery set
@@ -758,5 +1472,17 @@ def generate(repo: pathlib.Path) -> str:
     if not any(_is_call(n, "_aggregate_battery_power_bounds", 1) for n in ast.walk(pc)):
         raise Bad("PowerBoundsCalculator.calculate: battery bounds are no longer aggregated by _aggregate_battery_power_bounds")
 
+    roles = {id(q[2]) for q in queue if q[0] == "def"} | {id(q[1]) for q in queue if q[0] == "role"}
+    for q in queue:
+        if q[0] == "role":
+            continue
+        if q[0] == "raw":
+            out.append(q[1])
+            continue
+        _, name, node, arity, kind = q
+        node = _expand(node, flows, roles)
+        if kind == "prop":
+            node = nnf(node)
+        out.append(lean_def(name, node, arity, kind, ast.unparse(node)))
     out.append("end Extracted.Dist\n")
     return "\n".join(out)
